@@ -222,6 +222,7 @@ func run(r *mon.Run) {
 			before = append(before, v)
 		}
 		var buf bytes.Buffer
+		gen.FailedCallFirst(i, func(w io.Writer) { e.Write(w) })
 		if err := e.Write(&buf); err != nil {
 			bad("WRITE-FAILED", "Write failed on an exchange within all limits: "+err.Error())
 			continue
